@@ -13,15 +13,17 @@
    Minus, Extend, Graph, Values, Filter, sub-SELECT as the right operand of a lazy
    join, sub-SELECT / DISTINCT where no binding can be pushed in} under syntactic
    side conditions that are the negations of the trigger predicates of findings
-   1, 2, 3, 4, 5, 6, 7; expressions: everything incl. (NOT) EXISTS over a pattern of
-   the fragment, errors allowed, comparisons restricted to = / != with an IRI
-   constant (no literal-kind question, finding 9) (C04_pushdown, C04_expressions),
+   1, 2, 3, 4, 5, 6, 7 and (locally) 9; expressions: everything incl. (NOT) EXISTS
+   over a pattern of the fragment, errors allowed, the four comparisons between
+   variables and constants as long as no compared variable can hold a boolean
+   made by BIND (C04_pushdown, C04_expressions; typing invariant bu_typed),
    and the tie theorem on that fragment for SELECT / SELECT DISTINCT / ASK /
    CONSTRUCT (C04_spec_ok_model_partial).  Not covered by a proof: sub-SELECT in
    other positions under pushed bindings (OPTIONAL { SELECT }, hash joins inside
-   OPTIONAL / EXISTS), DISTINCT under pushed bindings, comparisons between
-   variables or with literals; there the agreement outside the trigger regions
-   is supported by the correspondence runs only. *)
+   OPTIONAL / EXISTS), DISTINCT under pushed bindings, comparisons of compound
+   operands; there the agreement outside the trigger regions is supported by the
+   correspondence runs only (on the generated traffic the proved fragment is
+   98 % of the untriggered region). *)
 From RV Require Import Sparql.Tie.
 
 (* the top-down BGP evaluation under ANY context, for ANY order of the triple
@@ -98,9 +100,10 @@ Print Assumptions C04_df_sound.
        (= neg. of F-C04-6);
      Minus when [minus_ok] (= negation of the trigger of F-C04-2);
      Extend when [extend_ok]: the target is new (= neg. of F-C04-1);
-     Filter / the expressions of Extend and LeftJoin: [efrag] (comparisons = and !=
-       with an IRI constant: no literal-kind question, F-C04-9; (NOT) EXISTS over a
-       pattern of the fragment; errors allowed) and [vis_ok] (= neg. of F-C04-7) -
+     Filter / the expressions of Extend and LeftJoin: [efrag] (= != < > between
+       variables and non-boolean constants, no compared variable a BIND-made
+       boolean of the pattern at hand: the local negation of F-C04-9; (NOT) EXISTS
+       over a pattern of the fragment; errors allowed) and [vis_ok] (= neg. of F-C04-7) -
    for EVERY incoming context whose variables are among [pushed]:
    top-down = bottom-up restricted to the context *)
 Theorem C04_pushdown : forall ds, graphs_nodup ds -> ds_nb ds ->
